@@ -369,6 +369,8 @@ pub fn asyncify(sc: &mut Scenario, rng: &mut Rng) {
         }
     }
     no_multi(&mut sc.regs);
+    // a dispatcher registered as a thread-local system has no observable start: not in async scenarios
+    sc.regs.retain(|r| !matches!(r, Reg::TlDisp { .. }));
     let n = 2 + rng.below(7) as usize;
     let mut ops = Vec::new();
     for _ in 0..n {
